@@ -69,6 +69,22 @@ CHECKS = {
         design_ref="DESIGN.md 2.1, 5 (C14)", note=PIPE_NOTE,
         technique="TLC model checking of recorded report networks with a Template consumer + real renders inspected by reflection",
         engine="tlc"),
+    "C16": dict(
+        category="model_checking",
+        text="(a) spec/Helpers.tla holds the slice model of 34 helpers; TLC enumerates every input sequence over {-2,0,1,3} up to "
+             "length 4-5 (pairs up to 2-3, triples up to 1-2) x every parameter 0..3/4 and emits each case with the expected outputs and "
+             "the capacity rule of the returned channel; every case (30k quick / more thorough) is run on the real helper with input "
+             "capacities 0 and 2 in a child process (hangs -> Go deadlock detector). (b) For 21 primitive stages and composites x "
+             "parameters x all input-length vectors up to 3-4 x two harness policies, the probe harness records which channel "
+             "operation the real stage takes next; TLC validates each trace against the stage programs of spec/Pipeline.tla "
+             "(PipelineTrace.tla: internal steps have priority, boundary events follow the harness policy), which binds the order of "
+             "receives, sends, drains and closes - including that longer inputs are consumed to the end.",
+        design_ref="DESIGN.md 2.2, 3.3, 5 (C16)",
+        note="Trusted: TLC, the probe harness (reflect.Select at quiescent points found by a goroutine census), float64 instantiation "
+             "of the generic helpers. Echo with fewer inputs than its memory and Ring.Put's return value when nothing is displaced "
+             "are not compared (documentation leaves them open).",
+        technique="TLC-enumerated slice models replayed on the code + TLC trace validation of recorded stage protocols",
+        engine="tlc"),
     "C17": dict(
         category="model_checking",
         text="TLC checks exhaustively (finite state space, all histories) that the implementation-shaped Ring and Bst of "
